@@ -56,6 +56,12 @@ def run_batch(ctx, n, with_model=True):
         for p in progs:
             envs = [{f: (rng.choice([0, 5, 7]) if t == "int" else rng.choice(["u1", 0, 9, "", None])) for f, t in p.fields.items()} for _ in range(3)]
             cases.append((p, gen.render(p), envs))
+    # corpus: literals that spell a piece of the generated text (banner, import line, signature, call)
+    for frag in gen.generated_fragments():
+        lit = gen.lit_str(frag, rng)
+        p = gen.Program("frag", lit if rng.random() < 0.5 else None, ["u"],
+                        ("if", ("cmp", ("id", "x"), "==", ("lit", lit)), ("ret", [(lit, "1"), (L("b"), "1")]), ("else", ("ret", [(L("n"), "1")]))), {"u": "any", "x": "str"})
+        cases.append((p, gen.render(p), [{"u": i, "x": rng.choice([lit.value, "other"])} for i in range(3)]))
     models = [None] * len(cases)
     if with_model and ctx.driver_ok:
         try:
